@@ -416,9 +416,7 @@ func c04run(g *Gen, c c04config, entry string, cls []string) {
 		}
 		ec := c04errClass(err)
 		fs := ""
-		if strings.Contains(ec, atom("unknown-filetype")) {
-			fs = tag("unspecified")
-		} else if strings.Contains(ec, atom("?unclassified?")) {
+		if strings.Contains(ec, atom("?unclassified?")) {
 			// an error in an unknown wording: whether the files written so far are specified depends on
 			// which error it is; the files slot then matches anything
 			fs = tag("??anything??", atoms(files))
